@@ -51,6 +51,11 @@ func (c *Ctx) reachableFrom(fn *ssa.Function) []*ssa.Function {
 			if mc, ok := in.(*ssa.MakeClosure); ok {
 				rec(mc.Fn.(*ssa.Function))
 			}
+			for _, op := range in.Operands(nil) {
+				if af, ok := (*op).(*ssa.Function); ok && af.Parent() != nil {
+					rec(af)
+				}
+			}
 		})
 	}
 	rec(fn)
